@@ -22,6 +22,7 @@ NUMERIC_EXTRA = ['-0', '+-1', '1__0', '_1', '1_', ' \t5\n', '\x1c5', '5\x85', 'â
                  '65536', '-2', '-65535', '4294967296', '-99999999999999999999', '9' * 4300, '9' * 4301, '0' * 4301, '1_' * 2200 + '1']
 ENUM_EXTRA = ['get', 'post', 'POST', 'put', 'off', 'On', 'anonymous', 'USE-CREDENTIALS', 'use_credentials', 'captions', 'chapters',
               'descriptions', 'Descriptions', 'METADATA', 'SubTitles', 'subtitle', ' on', 'oâ„ª']
+WORDS_EXTRA = ['5\x85', '\u2007a  b\u3000', 'a\tb', ' a \x1c', 'a   b c ', '\na b\n', 'a\xa0b', '  ', 'A a A']
 ASSIGN_PY = [0, 1, 5, -1, -4, 1000, 1001, 65534, 65535, 10 ** 20, True, False, None]
 
 
@@ -32,6 +33,8 @@ def corpus(tag, prop, tier, origin='tag'):
         vals += NUMERIC_EXTRA
     elif k == 'enum':
         vals += ENUM_EXTRA
+    elif k in ('tokens', 'className'):
+        vals += WORDS_EXTRA
     elif tier == 'thorough':
         vals += NUMERIC_EXTRA[:12] + ENUM_EXTRA[:6]
     return vals
